@@ -18,6 +18,7 @@ EXPLANATION = (
     "the known layout are decoded from their known prefix (stride rules of C05.R5 re-used). R4 framing guards that make misreading impossible: "
     "prefix and length-consistency checks (C03.R2), validate-before-decode (C06.R5), assert_complete (C03.R4)."
     ' Rounds 7-8: R1 also: the 0x1F / 0xC0 wrapper decoders raise nothing themselves.'
+    ' Rounds 9-10: R1 also: the wrapper decoders forgive nothing (no handler around the sub-decoder); R8 (C13.R3 re-used): an intact frame is delivered whatever the socket is doing.'
 )
 ASSUMPTIONS = ["slicing never raises; dict.get returns None on a miss"]
 FLOORS = {"C17.R1": 14, "C17.R2": 6, "C17.R3": 6, "C17.R4": 10, "C17.R5": 1, "C17.R6": 1, "C17.R7": 1, "C17.R8": 1}
